@@ -72,6 +72,16 @@ func c14Int(n uint32, withText bool) (sig, msg string) {
 		return "croak-int-roundtrip", fmt.Sprintf("ParseCroak(%x) = (%d,%v,rest %x,%v), encoded %d", arg2, v2, m2, rest2, err, n)
 	}
 	if withText {
+		// the same value through the assembler's text front end (what an author writes)
+		var tb bytes.Buffer
+		src := fmt.Sprintf("LOAD s %d\nCROAK %d 1\n", n, n)
+		if _, err := asm.Parse(src, &tb); err != nil {
+			return "asm-text-int-rejected", fmt.Sprintf("asm.Parse(%q) fails: %v", src, err)
+		}
+		wantText := codec.Encode([]codec.Ins{{Op: codec.LOAD, Sym: "s", N: n}, {Op: codec.CROAK, N: n, Mode: true}})
+		if !bytes.Equal(tb.Bytes(), wantText) {
+			return "asm-text-int-encoding-differs", fmt.Sprintf("asm.Parse(%q) = %x, format says %x", src, tb.Bytes(), wantText)
+		}
 		arg3 := append(append(append([]byte{1, 's'}, got...), 0), tail...)
 		s3, v3, m3, rest3, err := vm.ParseCatch(arg3)
 		if err != nil || s3 != "s" || v3 != n || m3 || !bytes.Equal(rest3, tail) {
